@@ -88,7 +88,7 @@ public:
     bool idleTrigger(int) const override { return false; }
     void clean(time_t) override {}
 protected:
-    void *allocate() override { return xcalloc(1, exact); }
+    void *allocate() override { return xcalloc(1, objectSize); }   // objectSize = RoundedSize(sz), as the real pools
     void deallocate(void *p) override { xfree(p); }
     size_t exact;
 };
@@ -172,7 +172,8 @@ static std::string runLine(const std::string &line) {
     g_dequeued.clear();
     g_fired.clear();
     for (int i = 1; i <= NARG; ++i) {
-        g_arg[i] = cbdataReference(new ArgObj);
+        ArgObj *o = new ArgObj;
+        g_arg[i] = cbdataReference(o);   // the macro evaluates its argument twice
         g_argValid[i] = true;
     }
     std::string out;
